@@ -37,6 +37,11 @@ OPS = [
     (r'\.any\(', '.all('), (r'\.all\(', '.any('), (r'\.first\(\)', '.last()'), (r'\.last\(\)', '.first()'),
     (r'\bSome\(0\)', 'Some(1)'), (r'unwrap_or\(0\)', 'unwrap_or(1)'), (r'unwrap_or\(usize::MAX\)', 'unwrap_or(0)'),
     (r'\.skip\(1\)', '.skip(0)'), (r'\.rev\(\)', ''), (r'if !', 'if '),
+    # statement deletion: a forgotten update of a collection / a forgotten assignment to a field
+    (r'(?m)^[ \t]+[\w\.]+\.(?:push|insert|extend|append|retain|sort\w*|dedup\w*|clear|remove|push_str|truncate)\([^\n]*\);\n', ''),
+    (r'(?m)^[ \t]+(?:self\.)?\w+(?:\.\w+)+ = [^\n]*;\n', ''),
+    (r' \+ ', ' - '), (r' - ', ' + '), (r'\.unwrap_or\(true\)', '.unwrap_or(false)'), (r'\.unwrap_or\(false\)', '.unwrap_or(true)'),
+    (r'\.filter\(', '.filter(|_| true).filter('), (r'\.take\(', '.skip(0).take(1 + '), (r'\.flatten\(\)', '.take(1).flatten()'),
 ]
 
 def mutants_of(rel):
@@ -55,7 +60,7 @@ def mutants_of(rel):
                 continue
             lineno = src.count('\n', 0, m.start()) + 1
             ms.append((rel, lineno, pat, rep, m.start(), m.end()))
-    random.Random(hashlib.md5(rel.encode()).hexdigest()).shuffle(ms)
+    random.Random(hashlib.md5((rel + os.environ.get('MS_SEED', '')).encode()).hexdigest()).shuffle(ms)
     return ms[:max_per_file]
 
 allm = []
